@@ -1919,9 +1919,28 @@ func patchCode(context *funcContext) { // {{{
 			if reg := opGetArgA(inst); reg > maxreg {
 				maxreg = reg
 			}
-			pc += int(context.Proto.FunctionPrototypes[opGetArgBx(inst)].NumUpvalues)
+			// the capture words that follow name registers too (MOVE 0 R)
+			nup := int(context.Proto.FunctionPrototypes[opGetArgBx(inst)].NumUpvalues)
+			for k := 1; k <= nup && pc+k < len(code); k++ {
+				if w := code[pc+k]; opGetOpCode(w) == OP_MOVE {
+					if reg := opGetArgB(w); reg > maxreg {
+						maxreg = reg
+					}
+				}
+			}
+			pc += nup
 			moven = 0
 			continue
+		case OP_FORPREP, OP_FORLOOP:
+			// index, limit, step and the loop variable R(A+3)
+			if reg := opGetArgA(inst) + 3; reg > maxreg {
+				maxreg = reg
+			}
+		case OP_TFORLOOP:
+			// generator, state, control and the C loop variables R(A+3)..R(A+2+C)
+			if reg := opGetArgA(inst) + 2 + opGetArgC(inst); reg > maxreg {
+				maxreg = reg
+			}
 		case OP_SETLIST:
 			if opGetArgC(inst) == 0 {
 				// the next word is the block number, not an instruction
